@@ -500,7 +500,7 @@ def run(ctx):
                 return
         sequential(ctx, eng, ctx.pick(1500, 30000), probe)
         t_core = ctx.pick(9, 150)
-        t_end = ctx.pick(18, 420)
+        t_end = ctx.pick(16, 420)
 
         def perturbed(wl, n):
             for _ in range(n):
